@@ -28,10 +28,14 @@ type killStore struct {
 	n      int
 	killAt int
 	after  bool
+	failAt int // the failAt-th write fails with an I/O error instead (once)
 }
 
 func (k *killStore) Mutate(m []*storage.Mutation, meta []byte) error {
 	k.n++
+	if k.failAt > 0 && k.n == k.failAt {
+		return fmt.Errorf("injected I/O error: no space left on device")
+	}
 	if k.n == k.killAt && !k.after {
 		syscall.Kill(os.Getpid(), syscall.SIGKILL)
 		time.Sleep(time.Hour)
@@ -57,6 +61,7 @@ type childPlan struct {
 	Port    int
 	Recover bool
 	Close   bool // close the node cleanly after the workload and exit 0
+	FailAt  int  // the FailAt-th store write returns an error
 }
 
 type ackLine struct {
@@ -95,14 +100,27 @@ func crashChild(arg string) {
 	lg := genLog(rng, p.Tag, p.Entries)
 	ch := make(chan *protocol.Snapshot, 1024)
 	drain(ch)
-	st := &killStore{ManagedStore: openRocks(p.Dir + "/db"), killAt: p.KillAt, after: p.After}
+	st := &killStore{ManagedStore: openRocks(p.Dir + "/db"), killAt: p.KillAt, after: p.After, failAt: p.FailAt}
 	n, err := consensus.VNewFSM(st, ch)
 	if err != nil {
 		panic(err)
 	}
 	for j := p.From; j < p.To; j++ {
+		if p.FailAt > 0 {
+			// raft hands every committed entry to the state machine once; an error goes back to the client
+			snaps, err := n.VApplyErr(lg[j].index, lg[j].evs)
+			if err == nil {
+				writeAck(acks, j, snaps, false)
+			} else {
+				fmt.Println("APPLYERR", j, err)
+			}
+			continue
+		}
 		snaps, already := n.VApply(lg[j].index, lg[j].evs)
 		writeAck(acks, j, snaps, already)
+	}
+	if p.FailAt > 0 {
+		fmt.Println("FINALVERSION", n.VBalloonVersion())
 	}
 	n.VCloseFSM()
 }
@@ -318,6 +336,55 @@ func crashCmd(out *cq.Out, seed uint64, tier string) {
 		}
 		out.Count("crash_points", points)
 		out.Sample(map[string]interface{}{"entries": m, "crash_points": points, "kind": "before/after each store write, then restart + replay from a random earlier entry"})
+	}
+	// ---- a store write that fails (I/O error) on a running node: whether the node dies and recovers or goes on, the
+	// versions acknowledged over its whole life must be dense and the version counter must equal the accepted events
+	{
+		m := 6
+		tag := "failwrite"
+		lg := genLog(cq.NewRng(seed), tag, m)
+		k := 2 + rng.Intn(m-2)
+		dir, _ := os.MkdirTemp(out.Dir, "fw")
+		desc := map[string]interface{}{"seed": seed, "entries": m, "failing_store_write": k, "kind": "store write returns an I/O error"}
+		out.Note(desc)
+		o1, _ := runChild(out, childPlan{Dir: dir, Tag: tag, Entries: m, Seed: seed, From: 0, To: m, FailAt: k}, 0)
+		acks := readAcks(dir + "/acks.jsonl")
+		accepted := uint64(0)
+		dense := true
+		for _, a := range acks {
+			if a.Version != accepted {
+				dense = false
+				out.Violate("C05:version-not-dense:after-failed-store-write", fmt.Sprintf("store write %d failed with an I/O error; afterwards the node acknowledged version %d for its accepted event number %d (a version was skipped or repeated)", k, a.Version, accepted), desc)
+				break
+			}
+			accepted++
+		}
+		if dense {
+			// the node either died at the failed write (then it restarts and replays) or went on: in both cases the
+			// version counter it reports must be the number of events it holds
+			var n *consensus.RaftNode
+			if p, msg := cq.Catch(func() { n = openFSM(dir + "/db") }); p {
+				out.Violate("C07:restart-panic", "restart after a failed store write panicked: "+msg, desc)
+			} else {
+				if v := n.VBalloonVersion(); v != accepted {
+					out.Violate("C05:version-not-dense:after-failed-store-write", fmt.Sprintf("after a failed store write the node holds %d acknowledged events and reports version counter %d", accepted, v), desc)
+				}
+				// replay of the whole log: everything not yet applied is applied once, with the versions of the committed log
+				want := uint64(0)
+				for j := 0; j < m; j++ {
+					snaps, already := n.VApply(lg[j].index, lg[j].evs)
+					if !already && len(snaps) > 0 && snaps[0].Version != want {
+						out.Violate("C05:version-not-dense:after-failed-store-write", fmt.Sprintf("on replay after a failed store write entry %d received version %d, the committed log gives it %d", j, snaps[0].Version, want), desc)
+						break
+					}
+					want += uint64(len(lg[j].evs))
+				}
+				n.VCloseFSM()
+			}
+		}
+		_ = o1
+		out.Case("failwrite", true)
+		os.RemoveAll(dir)
 	}
 	// ---- real raft, SIGKILL at a random wall-clock instant, restart and log replay
 	kills := 2
